@@ -95,7 +95,7 @@ func ruleServerGate(ctx *Ctx, rule string) {
 		// channel arrives as a parameter
 		co, _ := chanObj.(types.Object)
 		o := info.ObjectOf(id)
-		return co != nil && o != nil && newHelperParams(a)[o] && types.Identical(o.Type(), co.Type())
+		return co != nil && o != nil && newHelperParams(a)[o] && types.AssignableTo(co.Type(), o.Type()) // the parameter may be send-only
 	}
 	sets := u.Find(isSet)
 	if len(sets) == 0 {
@@ -323,7 +323,13 @@ func ruleServerSlotRelease(ctx *Ctx, rule string) {
 		return
 	}
 	sawDrain, sawFull := false, false
-	for _, b := range gf.Blocks {
+	// the goroutine's body and the helpers that did not exist on the reference
+	// tree it calls (the guards of a close are then looked for where the close is)
+	var gblocks []*ssa.BasicBlock
+	for _, fr := range ssaq.Frames(gf) {
+		gblocks = append(gblocks, fr.Fn.Blocks...)
+	}
+	for _, b := range gblocks {
 		for _, in := range b.Instrs {
 			cc, ok := ssaq.BuiltinCall(in, "close")
 			if !ok || len(cc.Args) != 1 {
@@ -409,7 +415,7 @@ func ruleServerShutdown(ctx *Ctx, rule string) {
 	isDrained := func(m ast.Node) bool {
 		return isRecvFromField(info, m, drain) || isBuiltinCall(info, m, "close", drain)
 	}
-	if len(u.Find(isUser)) == 0 {
+	if unitHolding(a, u, isUser) == nil {
 		r.Violation(rule, "Shutdown | user Shutdown is called", ctx.Prog.Rel(u.Pos), "Server.Shutdown no longer calls the Shutdowner")
 	}
 	noPathCheck(ctx, a, rule, "Shutdown | user Shutdown after drain", u, u.Entry(), u.Pos, isUser, isDrained,
@@ -417,8 +423,8 @@ func ruleServerShutdown(ctx *Ctx, rule string) {
 		"every path to the user's Shutdown passes <-srv.drain or the no-ongoing close(srv.drain)")
 	// who may call the Shutdowner
 	for _, un := range a.UnitsSorted() {
-		if !serverScope(un) || un == u {
-			continue
+		if !serverScope(un) || un == u || onlyReachedFrom(ctx, un.Name, "server.(*Server).Shutdown") {
+			continue // Shutdown itself, or a piece of it moved into a new helper
 		}
 		if len(un.Find(func(m ast.Node) bool { return isCallNamed(un.Pkg.TypesInfo, m, "server.(Shutdowner).Shutdown") })) > 0 {
 			r.Violation(rule, un.Name+" | calls Shutdowner.Shutdown", ctx.Prog.Rel(un.Pos), "the user's Shutdown is called outside Server.Shutdown")
